@@ -16,7 +16,7 @@ def run(tier, seed, replay=None):
     cpath = os.path.join(vlib.BUILD, "C12.cases.ndjson")
     epath = os.path.join(vlib.BUILD, "C12.events.ndjson")
     vlib.write_ndjson(cpath, cases)
-    nproc = 3 if tier == "quick" else 6
+    nproc = 6 if tier == "quick" else 12
     vlib.sh([vlib.VDRIVE_BIN, "c12", cpath, epath, str(nproc)], timeout=3000)
     events = vlib.read_ndjson(epath)
     bad, tstats = vlib.run_trace("Trace_C12.tla", "Trace_C12.cfg", events, "C12", shards=2, timeout=3000)
